@@ -64,7 +64,18 @@ static void r_kdf(const uint8_t* pw, size_t pwlen, const uint8_t* salt, size_t s
 static void r_memzero(void* const p, const size_t n) { d_mz_calls++; memset(p, 0, n); }
 static unsigned d_nfkd_calls; static const char* d_nfkd_arg;
 static size_t r_copy(const char* s, polyseed_str out) { size_t n = strlen(s); if (n > POLYSEED_STR_SIZE - 1) n = POLYSEED_STR_SIZE - 1; memcpy(out, s, n); out[n] = 0; return n; }
-static size_t r_nfkd(const char* s, polyseed_str out) { d_nfkd_calls++; d_nfkd_arg = s; return r_copy(s, out); }
+/* NFKD for strings made of table words and separators: the words are stored decomposed (closed fact T.unicode), the only
+   character that changes is the ideographic space U+3000 -> ASCII space */
+static size_t r_nfkd(const char* s, polyseed_str out) {
+    d_nfkd_calls++; d_nfkd_arg = s;
+    size_t n = 0;
+    while (*s && n < POLYSEED_STR_SIZE - 1) {
+        if ((unsigned char)s[0] == 0xE3 && (unsigned char)s[1] == 0x80 && (unsigned char)s[2] == 0x80) { out[n++] = ' '; s += 3; }
+        else out[n++] = *s++;
+    }
+    out[n] = 0;
+    return n;
+}
 static uint64_t r_time(void) { d_time_calls++; return d_time; }
 static void* r_alloc(size_t n) { d_alloc_calls++; if (d_alloc_fail) return NULL; void* p = malloc(n); memset(p, 0xA5, n); d_block = p; d_live++; return p; }
 static void r_free(void* p) {
@@ -304,6 +315,81 @@ int main(int argc, char** argv) {
             }
         }
         printf("%ld token lists tried\n", tried);
+    } else if (!strcmp(cmd, "encode_all") && argc == 2) {
+        /* closed obligation T.encode_words[lang] (engine encwords): for every language and every word index w, the real
+           polyseed_encode of a seed whose 7th word is w (10 secret bits + one birthday bit chosen accordingly, the other
+           words fixed) produces exactly words[c0] sep ... words[c15] of the published layout, returns its length, and
+           leaves the seed unchanged; the real decoders map that phrase back to the identical seed; the longest phrase of
+           the list round-trips too.  (NFC / NFKD are identity functions here: the table words are stored decomposed, so the
+           phrase handed to the decoder is the decomposed one; composition across the dependency is the closed fact
+           T.unicode.)  One JSON line per language. */
+        int nl = polyseed_get_num_langs(); int allok = 1;
+        for (int li = 0; li < nl; ++li) {
+            const polyseed_lang* l = polyseed_get_lang(li);
+            long bad = 0; char first[300] = "";
+            for (unsigned w = 0; w < 2048; ++w) {
+                polyseed_data s; memset(&s, 0, sizeof s);
+                for (int i = 0; i < 19; ++i) s.secret[i] = (uint8_t)(0x35 * (i + 1) + li);
+                s.secret[18] &= 0x3f;
+                /* data word 5 (phrase word 7) = secret bits 50..59 followed by birthday bit 9 */
+                unsigned hi = w >> 1;
+                for (unsigned b = 0; b < 10; ++b) { unsigned k = 50 + b; unsigned bit = (hi >> (9 - b)) & 1u;
+                    s.secret[k / 8] = (uint8_t)((s.secret[k / 8] & ~(0x80u >> (k % 8))) | (bit ? (0x80u >> (k % 8)) : 0)); }
+                s.birthday = (w & 1u) << 9 | 0x55; s.features = 0;
+                s.checksum = spec_check(&s);
+                unsigned coin = (w * 7u) & 2047u;
+                static char expect[4096]; expect[0] = 0; int has_w = 0;
+                for (unsigned i = 0; i < 16; ++i) {
+                    unsigned c = spec_coeff_raw(s.secret, s.birthday, s.features, (unsigned)s.checksum, coin, i) & 2047;
+                    if (i == 6 && c == w) has_w = 1;
+                    if (i) strcat(expect, l->separator);
+                    strcat(expect, l->words[c]);
+                }
+                polyseed_str out; polyseed_data snap = s;
+                size_t n = polyseed_encode(&s, l, coin, out);
+                if (!has_w || strcmp(out, expect) || n != strlen(out) || memcmp(&snap, &s, sizeof s)) {
+                    if (!bad) snprintf(first, sizeof first, "word index %u (%s): got a phrase of %zu bytes, expected %zu", w, l->words[w], strlen(out), strlen(expect));
+                    bad++;
+                    continue;
+                }
+                /* ... and the phrase decodes back to the identical seed (explicitly; automatically: same seed and language, or MULT_LANG) */
+                polyseed_data* back = NULL; const polyseed_lang* lo = NULL;
+                polyseed_status st = polyseed_decode_explicit(out, coin, l, &back);
+                int okx = st == POLYSEED_OK && back && back->birthday == s.birthday && back->features == s.features && back->checksum == s.checksum && !memcmp(back->secret, s.secret, 32);
+                if (back) polyseed_free(back);
+                back = NULL;
+                polyseed_status sa = polyseed_decode(out, coin, &lo, &back);
+                int oka = (sa == POLYSEED_ERR_MULT_LANG && !back) || (sa == POLYSEED_OK && back && lo == l && back->checksum == s.checksum && !memcmp(back->secret, s.secret, 32) && back->birthday == s.birthday && back->features == s.features);
+                if (back) polyseed_free(back);
+                if (!okx || !oka) {
+                    if (!bad) snprintf(first, sizeof first, "word index %u (%s): the encoded phrase decodes with status %d (explicit) / %d (automatic) or to a different seed", w, l->words[w], st, sa);
+                    bad++;
+                }
+            }
+            {   /* the longest phrase of the language (longest word everywhere; word 3 has an even index) round-trips as well */
+                unsigned wa = 0, we = 0; size_t la = 0, le = 0;
+                for (unsigned i = 0; i < 2048; ++i) { size_t n_ = strlen(l->words[i]); if (n_ > la) { la = n_; wa = i; } if (!(i & 1) && n_ > le) { le = n_; we = i; } }
+                unsigned c[16]; for (int i = 0; i < 16; ++i) c[i] = wa; c[2] = we;
+                polyseed_data s; memset(&s, 0, sizeof s);
+                for (unsigned j = 0; j < 19; ++j) s.secret[j] = spec_unpack_secret_byte(c, j);
+                s.birthday = spec_unpack_extra(c) & 1023; s.features = spec_unpack_extra(c) >> 10;
+                s.checksum = spec_check(&s);
+                unsigned coin = (spec_word(&s, 0) ^ wa) & 2047;
+                if (spec_supported(s.features, reserved_features)) {
+                    polyseed_str out; size_t n = polyseed_encode(&s, l, coin, out);
+                    polyseed_data* back = NULL;
+                    polyseed_status st = polyseed_decode_explicit(out, coin, l, &back);
+                    int okx = n == strlen(out) && st == POLYSEED_OK && back && !memcmp(back->secret, s.secret, 32) && back->birthday == s.birthday && back->checksum == s.checksum;
+                    if (back) polyseed_free(back);
+                    if (!okx) { if (!bad) snprintf(first, sizeof first, "the longest phrase of the list (%zu bytes) does not round-trip: status %d", strlen(out), st); bad++; }
+                }
+            }
+            printf("{\"name\": \"T.encode_words[%s]\", \"status\": \"%s\", \"evaluated\": 2048, \"detail\": \"", l->name_en, bad ? "fail" : "pass");
+            if (bad) { for (const char* p = first; *p; ++p) { if (*p == '"' || *p == '\\') putchar('\\'); putchar(*p); } printf(" (%ld of 2048 words)", bad); allok = 0; }
+            else printf("every word of the list, placed as the 7th word by the real polyseed_encode, appears intact in words[c0] sep ... words[c15] (returned length = strlen) and the phrase decodes back to the identical seed, explicitly and automatically; so does the longest phrase of the list");
+            printf("\"}\n");
+        }
+        if (!allok) fails++;
     } else if (!strcmp(cmd, "cmp") && argc == 5) {
         /* cmp <kind> <keyhex> <elmhex>: kind = str|prefix|str_noaccent|prefix_noaccent */
         char key[64] = {0}, elm[64] = {0}; unhex(argv[3], (uint8_t*)key, 63); unhex(argv[4], (uint8_t*)elm, 63);
